@@ -509,6 +509,9 @@ def flags_single_bit(ctx, es, report):
                                    'flags_class(flag & value) raise ValueError inside parse_numeric_flags' % (name, v))
 
 
+VALUE_VALIDATORS = {'max_len', 'min_len', 'lt', 'le', 'gt', 'ge', 'matches_re'}
+
+
 def constructed_objects(ctx, report):
     """R3: enum converters fed with raw integers, nullable timestamps into non-optional validators."""
     model, it = ctx.model, ctx.interp
@@ -532,6 +535,16 @@ def constructed_objects(ctx, report):
                 conv = it.eval(fld.converter_node, fr) if fld.converter_node is not None else None
                 val = it.eval(fld.validator_node, fr) if fld.validator_node is not None else None
                 src = field_source(pv)
+                # validators of the attrs library that constrain the *value* (not the type) raise ValueError inside the generated
+                # __init__: a parsed value reaches them outside every handler of the parser
+                if fld.validator_node is not None and src is not None:
+                    constraining = sorted({n.attr for n in ast.walk(fld.validator_node) if isinstance(n, ast.Attribute) and n.attr in VALUE_VALIDATORS} |
+                                          {n.id for n in ast.walk(fld.validator_node) if isinstance(n, ast.Name) and n.id in VALUE_VALIDATORS})
+                    if constraining:
+                        report.add('C02.R3', '%s@validator[%s]' % (c.resolve('_parse').construct, fld.name),
+                                   'the parsed value %s is stored in %s.%s, whose validator %s raises ValueError for a value outside its bound: '
+                                   'the error is raised inside the generated __init__, after the parser accepted the input, and is not one of the '
+                                   'documented errors' % (src.key, k.name, fld.name, ' / '.join(constraining)))
                 if isinstance(conv, ClassV) and isinstance(conv.cls, ClassInfo) and conv.cls.enum_members is not None and src is not None:
                     opconv = src.op.args.get('converter')
                     already = isinstance(opconv, ClassV) and opconv.cls is conv.cls
